@@ -90,10 +90,33 @@ pub fn gen_setup(r: &mut Rng) -> Setup {
         st.overrides.push((v, (target, if r.chance(9, 10) { 0xFFFF } else { 0 })));
     }
     if r.chance(1, 4) { st.alloca = Some({ let mut v: Vec<(u16, u16)> = (0..r.below(3)).map(|_| (pick_addr(r), r.below(40) as u16)).collect(); v.sort_by_key(|x| x.0); v }); }
+    // an allocated block that reaches the top of the address space (start + len = x10000 or beyond, as load_obj_file records
+    // for a block ending at xFFFF), with the program loading from / storing to it through R1
+    if r.chance(1, 12) {
+        let start = 0xFFFF - r.below(12) as u16;
+        let len = (0x10000u32 - start as u32) as u16;
+        st.alloca = Some(vec![(start, if r.chance(1, 2) { len } else { len.wrapping_sub(1).max(1) })]);
+        st.regs[1] = (start.wrapping_add(r.below(4) as u16), 0xFFFF);
+        st.overrides.push((st.pc, ([0x6040u16, 0x7040, 0x6041, 0x7041][r.below(4) as usize], 0xFFFF)));
+        st.ignore_priv = true;
+    }
     if r.chance(1, 3) { st.sr_defns.push((pick_addr(r), if r.chance(1, 2) { PList::CC(r.below(4) as usize) } else { PList::PBR((0..r.below(3)).map(|_| r.below(8) as u8).collect()) })); }
     for _ in 0..r.below(2) {
         let n = st.overrides.len() as u64;
         let a = st.overrides[r.below(n) as usize].1.0; st.sr_defns.push((a, PList::CC(r.below(3) as usize)));
+    }
+    // a JSRR to a subroutine with a registered stack-convention signature, with R6 close to the top of the
+    // address space so that the argument block R6+0 .. R6+n-1 wraps around xFFFF
+    if r.chance(1, 10) {
+        let callee = 0x3800 + r.below(0x100) as u16;
+        st.sr_defns.push((callee, PList::CC(1 + r.below(4) as usize)));
+        st.regs[2] = (callee, 0xFFFF);
+        st.regs[6] = (0xFFFF - r.below(3) as u16, 0xFFFF);
+        st.overrides.push((st.pc, (0x4080, 0xFFFF)));          // JSRR R2
+        st.overrides.push((callee, (0x1021, 0xFFFF)));
+        for a in [0xFFFDu16, 0xFFFE, 0xFFFF, 0x0000, 0x0001, 0x0002] { st.overrides.push((a, (r.u16(), 0xFFFF))); }
+        st.debug_frames = true;
+        st.ignore_priv = true;
     }
     st.instrs = if r.chance(1, 20) { u64::MAX - r.below(3) } else { r.below(1000) };
     st.mcr = r.chance(1, 2);
